@@ -1186,7 +1186,7 @@ class OpGen(object):
             return nd([v * 10 for v in vals], "i8")
         if r < 0.20:
             return [float(v) for v in vals]     # a Python list
-        if r < 0.225 and len(vals) >= 3 and not self.cfg.get("strict_fp"):
+        if r < (0.3 if self.cfg.get("strict_fp") else 0.225) and len(vals) >= 3:
             # a record with a gap or a spike marker: NaN / inf samples are legal values of a float array
             vals = list(vals)
             for _ in range(rng.randint(1, 2)):
@@ -1357,7 +1357,7 @@ class OpGen(object):
                    "add_series": [[None], [5], [["a"] * n]],
                    "butter_pass": [[{"tu": ["a", "b"]}], [{"tu": [None, None]}], [{"tu": [0.0, 0.0]}], [{"tu": [-1.0, 2.0]}]],
                    "remove_average": [[], []], "remove_poly": [["2"], [None], [-1], [2.5]],
-                   "running_average": [[None], ["3"], [0], [-2]],
+                   "running_average": [[None], ["3"], [0], [-2], [-4], [-3], [-7]],     # (a negative width wraps around: on an integer record the first samples are rewritten before an empty window raises)
                    "remove_rolling_average": [[], []],
                    "set_zero_residual_velocity": [[], []], "szrdv": [[], []],
                    "set_zero_residual_displacement": [[], []]}.get(base)
